@@ -714,7 +714,7 @@ const maxValuePaths = 4096
 // becomes a boolean expression over canonical propositions on merge-free terms, and
 // the walk branches on each proposition not yet fixed on the current path.
 type pathExplorer struct {
-	rc    *refCell
+	o     absint.Ops
 	bc    *absint.BoolCtx
 	env   map[string]bool // propositions fixed on this path
 	asg   map[string]bool // gate key -> outcome on this path
@@ -723,8 +723,8 @@ type pathExplorer struct {
 	note  string
 }
 
-func newExplorer(rc *refCell, bc *absint.BoolCtx, forced map[string]bool) *pathExplorer {
-	pe := &pathExplorer{rc: rc, bc: bc, env: map[string]bool{}, asg: map[string]bool{}}
+func newExplorer(o absint.Ops, bc *absint.BoolCtx, forced map[string]bool) *pathExplorer {
+	pe := &pathExplorer{o: o, bc: bc, env: map[string]bool{}, asg: map[string]bool{}}
 	for k, v := range forced {
 		pe.env[k] = v
 	}
@@ -774,7 +774,7 @@ func (pe *pathExplorer) resolve(l *absint.Lin, k func(*absint.Int)) {
 	if pe.over {
 		return
 	}
-	v := pe.rc.o.Rebuild(l, pe.asg)
+	v := pe.o.Rebuild(l, pe.asg)
 	conds := map[string]bool{}
 	absint.IteConds(v.Lin, conds)
 	if len(conds) == 0 {
@@ -814,7 +814,7 @@ func (pe *pathExplorer) resolve(l *absint.Lin, k func(*absint.Int)) {
 		if x == nil || y == nil {
 			continue
 		}
-		xr, yr := pe.rc.o.Rebuild(x.Lin, pe.asg), pe.rc.o.Rebuild(y.Lin, pe.asg)
+		xr, yr := pe.o.Rebuild(x.Lin, pe.asg), pe.o.Rebuild(y.Lin, pe.asg)
 		inner := map[string]bool{}
 		absint.IteConds(xr.Lin, inner)
 		absint.IteConds(yr.Lin, inner)
@@ -863,7 +863,7 @@ func (pe *pathExplorer) resolveRef(r *refVal, k func(*absint.Int)) {
 // compareValue decides impl == ref as terms on every path through the gating
 // conditions of both; returns "" or a description of the first difference.
 func compareValue(rc *refCell, bc *absint.BoolCtx, impl *absint.Int, ref *refVal, forced map[string]bool) string {
-	pe := newExplorer(rc, bc, forced)
+	pe := newExplorer(rc.o, bc, forced)
 	diff := ""
 	pe.resolve(impl.Lin, func(got *absint.Int) {
 		pe.resolveRef(ref, func(want *absint.Int) {
@@ -900,7 +900,7 @@ func compareFlag(rc *refCell, bc *absint.BoolCtx, impl *absint.Int, ref refFlag,
 	if impl.Hi > 1 {
 		return fmt.Sprintf("is not a 0/1 value (up to %#x)", impl.Hi)
 	}
-	pe := newExplorer(rc, bc, forced)
+	pe := newExplorer(rc.o, bc, forced)
 	diff := ""
 	cmp := func(g, w *absint.BExpr) {
 		if diff != "" {
@@ -1133,4 +1133,72 @@ func checkValues(ctx *Ctx, isa *ISA, m *CPUModel, rs string, results []*CellResu
 		}
 	}
 	R.Count("value-mnemonics", len(mns))
+}
+
+
+// sameTerm decides whether two abstract integers, possibly built in different
+// interpreter runs, denote the same function of the entry symbols: equal keys, or
+// equal merge-free terms on every path through the gating conditions of both (for
+// 0/1 values: equal boolean functions of the canonical propositions).
+func sameTerm(x *absint.Int, cx map[string]*absint.Bool, y *absint.Int, cy map[string]*absint.Bool) (bool, string) {
+	if x.Lin.Key() == y.Lin.Key() && x.W == y.W {
+		return true, ""
+	}
+	conds := map[string]*absint.Bool{}
+	for k, v := range cx {
+		conds[k] = v
+	}
+	for k, v := range cy {
+		if _, ok := conds[k]; !ok {
+			conds[k] = v
+		}
+	}
+	o := absint.Ops{In: absint.NewInterner()}
+	bc := &absint.BoolCtx{Conds: conds}
+	pe := newExplorer(o, bc, nil)
+	diff := ""
+	flag := x.Hi <= 1 && y.Hi <= 1
+	pe.resolve(x.Lin, func(gx *absint.Int) {
+		pe.resolve(y.Lin, func(gy *absint.Int) {
+			if diff != "" {
+				return
+			}
+			if flag {
+				ex, ey := bc.BitOf(gx.Lin, 0).Assign(pe.env), bc.BitOf(gy.Lin, 0).Assign(pe.env)
+				sx, ok1 := ex.Canon()
+				sy, ok2 := ey.Canon()
+				if !ok1 || !ok2 || sx != sy {
+					diff = fmt.Sprintf("%s vs %s%s", trunc(sx), trunc(sy), pe.describe())
+					pe.over = true
+				}
+				return
+			}
+			a, b := gx, gy
+			if a.W != b.W {
+				if a.W < b.W {
+					a = o.Convert(a, b.W, false, false)
+				} else {
+					b = o.Convert(b, a.W, false, false)
+				}
+			}
+			if a.Lin.Key() != b.Lin.Key() {
+				diff = fmt.Sprintf("%s vs %s%s", trunc(a.Lin.Key()), trunc(b.Lin.Key()), pe.describe())
+				pe.over = true
+			}
+		})
+	})
+	if diff == "" && pe.over {
+		return false, "undecided: too many paths through the gating conditions" + pe.note
+	}
+	return diff == "", diff
+}
+
+// hasInexactMerge reports whether the value contains a merge of two computations
+// whose controlling condition the interpreter could not name.
+func hasInexactMerge(v absint.Val) bool {
+	iv, ok := v.(*absint.Int)
+	if !ok || iv.Lin == nil {
+		return false
+	}
+	return strings.Contains(iv.Lin.Key(), "join#")
 }
